@@ -242,8 +242,8 @@ CLAIMED.update({
     "C12": dict(
         engine="SaveLoad", category="model_checking",
         text=("TLC enumerates every valid configuration of specs/SaveLoad.tla (4 model kinds x dimension 1-3 given or not x source "
-              "dimension unspecified / 0 / 1 / 2 x noise default / scalar / diagonal x named or default features x instance name = "
-              "kind or custom x origin fit or hand-written file: 1980 configurations) and checks SurvivesSaveLoad on the intended "
+              "dimension unspecified / 0 / 1 / 2 x noise default / scalar / diagonal x named, default or integer-labelled features x instance name = "
+              "kind or custom x origin fit or hand-written file: 2970 configurations) and checks SurvivesSaveLoad on the intended "
               "design and SurvivesExceptNamed on the as-built one (three named deviations); configurations are executed on the real "
               "code (tiny fit, save, load, optional hand-edited file, re-save): population variables at prior modes after the fit, "
               "derived values consistent with the saved parameters, load outcome, parameters / hyper-parameters / trajectories at "
